@@ -685,6 +685,7 @@ impl Parser {
         self.state = EngineState::Default;
         buf.reset_terminal();
         caret.reset();
+        caret.set_position(buf.upper_left_position());
     }
 
     /// Sequence: `CSI Ps1 ; Ps2 * r`</p>
